@@ -47,9 +47,14 @@ CASES = [
 ]
 import py2lean_np, py2lean_scatter
 # other per-run translators: (generated file, obligations module, generator, its Unsupported)
-OTHER = {"C08np": ("NpC08.lean", "LK.Proofs.NpC08", py2lean_np.translate_learn, py2lean_np.Unsupported),
+OTHER = {"C06np": ("NpC06.lean", "LK.Proofs.NpC06", py2lean_np.translate_dcg, py2lean_np.Unsupported),
+         "C08np": ("NpC08.lean", "LK.Proofs.NpC08", py2lean_np.translate_learn, py2lean_np.Unsupported),
          "C04sc": ("ScatterC04.lean", "LK.Proofs.ScatterC04", py2lean_scatter.generate, py2lean_scatter.Unsupported)}
 CASES += [
+ ("C06np", "metrics/ranking/_dcg.py", "    np.maximum(disc, 1, out=disc)\n    np.reciprocal(disc, out=disc)", "    np.reciprocal(disc, out=disc)\n    np.maximum(disc, 1, out=disc)", "break"),
+ ("C06np", "metrics/ranking/_dcg.py", "    np.maximum(disc, 1, out=disc)\n", "", "break"),
+ ("C06np", "metrics/ranking/_dcg.py", "    disc = np.maximum(disc, 1)\n    disc = np.reciprocal(disc)", "    np.maximum(disc, 1, out=disc)\n    np.reciprocal(disc, out=disc)", "keep"),
+ ("C06np", "metrics/ranking/_dcg.py", "    np.maximum(disc, 1, out=disc)\n", "    disc[disc <= 0] = 1\n", "break"),
  ("C08np", "basic/bias.py", "            counts = np.full(ncols, entity_damping(damping, \"item\"))", "            counts = np.zeros(ncols)", "break"),
  ("C08np", "basic/bias.py", "            centered -= i_bias[ratings.col]\n", "", "break"),
  ("C08np", "basic/bias.py", "            np.add.at(sums, ratings.row, centered)", "            np.add.at(sums, ratings.col, centered)", "break"),
